@@ -31,6 +31,19 @@ class _Falsy:
     B = ''
 
 
+class _Reentrant:
+    """global_vars whose attribute is computed by running ANOTHER substitution with other variables (a settings object that reads a second
+    config): the outer substitution goes on with its own variables"""
+    B = 'outer-b'
+
+    @property
+    def A(self):
+        from taskchain.utils.data import search_and_replace_placeholders
+        inner = search_and_replace_placeholders(['{B}x', {'k': '{A}'}], {'B': 'inner-b', 'A': 'inner-a'})
+        assert [str(inner[0]), str(inner[1]['k'])] == ['inner-bx', 'inner-a'], inner
+        return 'a'
+
+
 def gv_menu():
     mod = types.ModuleType('gvmod')
     mod.A = 'ma'
@@ -40,6 +53,7 @@ def gv_menu():
         ('long', {'A B': 'sp', 'x': 'X'}),
         # defined, but falsy values; mappings that are not dicts
         ('falsy', {'A': 0, 'B': ''}), ('none-false', {'A': None, 'B': False}), ('falsy-obj', _Falsy()),
+        ('reentrant', _Reentrant()),
         ('mappingproxy', types.MappingProxyType({'A': 'a', 'B': 'b'})), ('userdict', __import__('collections').UserDict({'A': 'a'})),
     ]
 
@@ -383,13 +397,18 @@ def _part_b(tier):
             except Exception as e:  # noqa
                 res.violations.append(Violation('config: placeholder in a task import string is not honoured', f'{field}: {spec}: {type(e).__name__}: {e}', case))
         # one caller-owned context whose `uses` names a file through a placeholder, used with two values of the variable
-        for form in ('list', 'str'):
+        for form in ('list', 'str', 'file'):
             cdirs = {}
             for tag, val in (('one', 1), ('two', 2)):
                 cdirs[tag] = Path(root) / f'ctxdir_{form}_{tag}'
                 cdirs[tag].mkdir(exist_ok=True)
                 (cdirs[tag] / 'ctx.json').write_text(_json_mod.dumps({'s': f'from-{tag}'}))
             ctx_u = {'uses': ['{CDIR}/ctx.json'] if form == 'list' else '{CDIR}/ctx.json'}
+            if form == 'file':
+                # the context itself is a FILE (unchanged between the constructions) that names the next one through the placeholder
+                fpath = Path(root) / 'ctx_outer.json'
+                fpath.write_text(_json_mod.dumps({'uses': '{CDIR}/ctx.json', 'plain': '{DIR}/p'}))
+                ctx_u = str(fpath)
             snap_u = copy.deepcopy(ctx_u)
             for tag in ('one', 'two', 'one'):
                 res.add('evaluations')
@@ -399,7 +418,7 @@ def _part_b(tier):
                     got = str(Chain(cfgu)['a'].params['s'])
                     if got != f'from-{tag}':
                         res.violations.append(Violation('context: `uses` path substituted for an earlier config is used again for a later one', f'{form} form, CDIR={tag}: s={got!r}', case))
-                    if ctx_u != snap_u or any(type(x) is not str for x in (ctx_u['uses'] if form == 'list' else [ctx_u['uses']])):
+                    if form != 'file' and (ctx_u != snap_u or any(type(x) is not str for x in (ctx_u['uses'] if form == 'list' else [ctx_u['uses']]))):
                         res.violations.append(Violation('context: caller-owned context data rewritten by substitution', f'{ctx_u!r}', case))
                 except Exception as e:  # noqa
                     res.violations.append(Violation('context: `uses` path substituted for an earlier config is used again for a later one', f'{form}: {type(e).__name__}: {e}', case))
